@@ -6,7 +6,8 @@ A Number stored in a DECIMAL(w,s) column is an integer `n` with `|n| < 10^w`; it
 A Number input is a finite decimal literal `m / 10^e` (every CSV field, every `repr` of a float is one).
 DuckDB's VARCHAR/CSV → DECIMAL conversion rounds half away from zero and fails when the rounded value
 needs more than `w` digits.  DECIMAL(w,s) ± DECIMAL(w,s) is integer addition of the scaled values in
-DECIMAL(min(w+1,38), s); it fails on overflow of 38 digits instead of losing digits.
+DECIMAL(w+1, s) — except at widths 18 and 38, where the width stays and an overflow is an error —
+never a value with lost digits.
 (DuckDB itself is modelled, not verified: the correspondence run compares `load`/`addDec` with the real
 DuckDB through `get_decimal_type()` and through `run()`.)
 -/
@@ -51,12 +52,16 @@ def fits (w : Nat) (n : Int) : Bool := n.natAbs < 10 ^ w
 def load (w s : Nat) (x : Lit) : Option Int :=
   if fits w (scaled s x) then some (scaled s x) else none
 
-/-- DECIMAL(w,s) + DECIMAL(w,s) in DuckDB: result type DECIMAL(min(w+1,maxW), s) -/
+/-- width of DECIMAL(w,s) ± DECIMAL(w,s) in DuckDB: one more digit, except that DuckDB does not promote
+    across the 64-bit storage boundary (width 18 stays 18, with an overflow check) nor beyond `maxW` = 38 -/
+def resWidth (maxW w : Nat) : Nat := if w = 18 then 18 else min (w + 1) maxW
+
+/-- DECIMAL(w,s) + DECIMAL(w,s): integer addition of the scaled values; `none` = overflow error -/
 def addDec (maxW w : Nat) (a b : Int) : Option Int :=
-  if fits (min (w + 1) maxW) (a + b) then some (a + b) else none
+  if fits (resWidth maxW w) (a + b) then some (a + b) else none
 
 def subDec (maxW w : Nat) (a b : Int) : Option Int :=
-  if fits (min (w + 1) maxW) (a - b) then some (a - b) else none
+  if fits (resWidth maxW w) (a - b) then some (a - b) else none
 
 /-- digits of `n`, left-padded with zeros to at least `k` characters -/
 def padNat (k n : Nat) : String :=
